@@ -33,9 +33,10 @@ VARIABLES
     alters,     \* ALTER statements issued by the current run
     lastDone,   \* configuration of the most recent run if it completed and nothing ran since, else NoCfg
     clean,      \* TRUE iff the current run started right after a completed run with the same configuration
+    torn,       \* ghost: torn[j] iff a table of group j was altered since the group's marker was last recorded
     faults, changes
 
-vars == <<settings, ttl, pol, cfg, pc, gi, ti, alters, lastDone, clean, faults, changes>>
+vars == <<settings, ttl, pol, cfg, pc, gi, ti, alters, lastDone, clean, torn, faults, changes>>
 
 NoCfg == [policy |-> "-", ttl |-> "-"]
 G == Groups[gi]
@@ -46,6 +47,7 @@ Init ==
     /\ ttl = [t \in Tables |-> ""] /\ pol = [t \in Tables |-> ""]
     /\ cfg \in Configs
     /\ pc = "idle" /\ gi = 1 /\ ti = 1 /\ alters = 0 /\ lastDone = NoCfg /\ clean = FALSE
+    /\ torn = [j \in 1..Len(Groups) |-> FALSE]
     /\ faults = 0 /\ changes = 0
 
 Start ==
@@ -53,7 +55,7 @@ Start ==
     /\ pc' = "get" /\ gi' = 1 /\ ti' = 1 /\ alters' = 0
     /\ clean' = (lastDone = cfg)
     /\ lastDone' = NoCfg
-    /\ UNCHANGED <<settings, ttl, pol, cfg, faults, changes>>
+    /\ UNCHANGED <<settings, ttl, pol, cfg, torn, faults, changes>>
 
 NextGroup ==
     IF gi < Len(Groups) THEN pc' = "get" /\ gi' = gi + 1 /\ ti' = 1 /\ UNCHANGED lastDone
@@ -66,7 +68,7 @@ Get ==
          THEN NextGroup
          ELSE /\ pc' = (IF G.kind = "policy" THEN "alterPolicy" ELSE "alterSetting")
               /\ ti' = 1 /\ UNCHANGED <<gi, lastDone>>
-    /\ UNCHANGED <<settings, ttl, pol, cfg, alters, clean, faults, changes>>
+    /\ UNCHANGED <<settings, ttl, pol, cfg, alters, clean, torn, faults, changes>>
 
 NextTable(first) ==
     IF ti < Len(G.tables) THEN pc' = first /\ ti' = ti + 1 ELSE pc' = "put" /\ UNCHANGED ti
@@ -77,13 +79,14 @@ AlterPolicy ==
     /\ pol' = [pol EXCEPT ![G.tables[ti]] = cfg.policy]
     /\ alters' = alters + 1
     /\ NextTable("alterPolicy")
+    /\ torn' = [torn EXCEPT ![gi] = TRUE]
     /\ UNCHANGED <<settings, ttl, cfg, gi, lastDone, clean, faults, changes>>
 
 \* ALTER TABLE t MODIFY SETTING ttl_only_drop_parts = 1, ...
 AlterSetting ==
     /\ pc = "alterSetting"
     /\ pc' = "alterTTL" /\ alters' = alters + 1
-    /\ UNCHANGED <<settings, ttl, pol, cfg, gi, ti, lastDone, clean, faults, changes>>
+    /\ UNCHANGED <<settings, ttl, pol, cfg, gi, ti, lastDone, clean, torn, faults, changes>>
 
 \* ALTER TABLE t MODIFY TTL ...
 AlterTTL ==
@@ -91,6 +94,7 @@ AlterTTL ==
     /\ ttl' = [ttl EXCEPT ![G.tables[ti]] = Want(cfg, G)]
     /\ alters' = alters + 1
     /\ NextTable("alterSetting")
+    /\ torn' = [torn EXCEPT ![gi] = TRUE]
     /\ UNCHANGED <<settings, pol, cfg, gi, lastDone, clean, faults, changes>>
 
 \* putSetting(key, desired)
@@ -98,6 +102,7 @@ Put ==
     /\ pc = "put"
     /\ settings' = [settings EXCEPT ![G.key] = Want(cfg, G)]
     /\ NextGroup
+    /\ torn' = [torn EXCEPT ![gi] = FALSE]
     /\ UNCHANGED <<ttl, pol, cfg, alters, clean, faults, changes>>
 
 Running == pc \in {"get", "alterSetting", "alterTTL", "alterPolicy", "put"}
@@ -106,13 +111,13 @@ Running == pc \in {"get", "alterSetting", "alterTTL", "alterPolicy", "put"}
 Fault ==
     /\ Running /\ faults < MaxFaults
     /\ pc' \in {"idle", "failed"} /\ faults' = faults + 1
-    /\ UNCHANGED <<settings, ttl, pol, cfg, gi, ti, alters, lastDone, clean, changes>>
+    /\ UNCHANGED <<settings, ttl, pol, cfg, gi, ti, alters, lastDone, clean, torn, changes>>
 
 ChangeConfig ==
     /\ pc \in {"idle", "failed", "done"} /\ changes < MaxChanges
     /\ \E c \in Configs : c # cfg /\ cfg' = c
     /\ changes' = changes + 1 /\ pc' = "idle"
-    /\ UNCHANGED <<settings, ttl, pol, gi, ti, alters, lastDone, clean, faults>>
+    /\ UNCHANGED <<settings, ttl, pol, gi, ti, alters, lastDone, clean, torn, faults>>
 
 Next == Start \/ Get \/ AlterPolicy \/ AlterSetting \/ AlterTTL \/ Put \/ Fault \/ ChangeConfig
 Spec == Init /\ [][Next]_vars
@@ -131,6 +136,18 @@ Converged ==
         \A g \in GroupSet : \A t \in TabSet(g) :
             IF g.kind = "policy" THEN (cfg.policy # "" => pol[t] = cfg.policy)
             ELSE ttl[t] = Want(cfg, g)
+
+\* Converged, except for the one history in which the code is known to diverge (known finding
+\* revert-after-interrupted-change): a run with another configuration altered tables of group g and was interrupted
+\* before recording its value, and the configuration was then reverted to the one the marker still holds, so the
+\* group is skipped.  Everything else about Converged is still demanded.
+GroupIdx == 1..Len(Groups)
+ConvergedModuloRevert ==
+    pc = "done" =>
+        \A j \in GroupIdx : \A t \in TabSet(Groups[j]) :
+            \/ IF Groups[j].kind = "policy" THEN (cfg.policy # "" => pol[t] = cfg.policy)
+               ELSE ttl[t] = Want(cfg, Groups[j])
+            \/ torn[j] /\ settings[Groups[j].key] = Want(cfg, Groups[j])
 
 \* running again with unchanged configuration issues no ALTER statement
 RerunIsNoOp == clean => alters = 0
